@@ -164,6 +164,12 @@ class Body:
                 pv = self.promoted_value(c["promoted"])
                 if pv is not None:
                     return ("const", pv)
+            elif c.get("k") == "unev" and "v" not in c and c.get("p"):
+                lit = self.F.const_literal(c["p"])
+                if lit is not None:
+                    d = dict(lit)
+                    d.setdefault("t", c.get("t"))
+                    return ("const", d)
             return ("const", c)
         if "p" not in operand:
             return ("other", operand)
@@ -275,11 +281,19 @@ class Body:
                     return None
                 r = s["r"]
                 if r["k"] == "use" and "c" in r["o"]:
-                    vals[s["p"][0]] = r["o"]["c"]
+                    cc = r["o"]["c"]
+                    if cc.get("k") == "unev" and "v" not in cc and cc.get("p") and "promoted" not in cc:
+                        lit = self.F.const_literal(cc["p"])
+                        if lit is not None:
+                            cc = lit
+                    vals[s["p"][0]] = cc
                 elif r["k"] == "ref" and len(r["p"]) == 1 and s["p"] == [0]:
                     ret = r["p"][0]
                 elif r["k"] == "agg" and r.get("ak") == "array" and not r["ops"]:
                     vals[s["p"][0]] = {"k": "emptyarray"}
+                elif r["k"] == "agg" and r.get("ak") == "adt" and not r["ops"]:
+                    # fieldless enum variant / unit struct: `&FftDirection::Forward`
+                    vals[s["p"][0]] = {"k": "enum", "adt": r["adt"], "vname": r["vname"], "s": "%s::%s" % (r["adt"], r["vname"])}
                 elif r["k"] == "agg" and r.get("ak") == "array" and all("c" in o and "v" in o["c"] for o in r["ops"]):
                     vals[s["p"][0]] = {"k": "array", "vals": [o["c"]["v"] for o in r["ops"]]}
                 else:
@@ -292,9 +306,64 @@ class Body:
         return bool(self.whole_defs(param))
 
 
+# Items the rules refer to by path. If a refactoring moves one of them to another (private) module, its
+# definition path changes although nothing a user or the property cares about did; the loader then
+# rewrites the new path to the canonical one (only when the simple name is unique in the crate).
+ANCHORS = {
+    "FftDirection": "FftDirection", "Fft": "Fft", "Length": "Length", "Direction": "Direction",
+    "FftNum": "common::FftNum", "DoubleBuf": "array_utils::DoubleBuf", "LoadStore": "array_utils::LoadStore", "Load": "array_utils::Load",
+    "FftCache": "fft_cache::FftCache", "FftPlanner": "plan::FftPlanner", "FftPlannerScalar": "plan::FftPlannerScalar",
+    "FftPlannerSse": "sse::sse_planner::FftPlannerSse", "FftPlannerAvx": "avx::avx_planner::FftPlannerAvx",
+    "AvxPlannerInternal": "avx::avx_planner::AvxPlannerInternal", "MixedRadixPlan": "avx::avx_planner::MixedRadixPlan",
+    "PartialFactors": "math_utils::PartialFactors", "PrimeFactors": "math_utils::PrimeFactors",
+    "SseArray": "sse::sse_vector::SseArray", "SseArrayMut": "sse::sse_vector::SseArrayMut", "SseVector": "sse::sse_vector::SseVector",
+    "AvxArray": "avx::avx_vector::AvxArray", "AvxArrayMut": "avx::avx_vector::AvxArrayMut", "AvxVector": "avx::avx_vector::AvxVector",
+    "AvxVector256": "avx::avx_vector::AvxVector256", "AvxVector128": "avx::avx_vector::AvxVector128",
+    "Dft": "algorithm::dft::Dft",
+    "compute_twiddle": "twiddles::compute_twiddle", "fill_bluesteins_twiddles": "twiddles::fill_bluesteins_twiddles",
+    "workaround_transmute": "array_utils::workaround_transmute", "workaround_transmute_mut": "array_utils::workaround_transmute_mut",
+    "prime_butterfly_lens": "sse::sse_prime_butterflies::prime_butterfly_lens",
+    "construct_prime_butterfly": "sse::sse_prime_butterflies::construct_prime_butterfly",
+}
+
+
+def _canonicalise(path):
+    """Return the fact file text with moved anchor items renamed back to their canonical paths."""
+    import re
+    text = open(path).read()
+    found = {}
+    for line in text.split("\n"):
+        if not line or line[8:12] not in ("adt\"", "trai", "body", "decl"):
+            # cheap prefilter on '{"rec":"xxx'
+            if not (line.startswith('{"rec":"adt"') or line.startswith('{"rec":"trait"') or line.startswith('{"rec":"body"')):
+                continue
+        m = re.match(r'\{"rec":"(adt|trait|body)","id":"[^"]*","name":"([^"]*)"', line)
+        if not m:
+            continue
+        kind, name = m.group(1), m.group(2)
+        if kind == "body" and ("<" in name or "{" in name):
+            continue
+        simple = name.rsplit("::", 1)[-1]
+        if simple in ANCHORS:
+            found.setdefault(simple, set()).add(name)
+    renames = {}
+    for simple, names in found.items():
+        if len(names) == 1:
+            actual = next(iter(names))
+            if actual != ANCHORS[simple]:
+                renames[actual] = ANCHORS[simple]
+    if not renames:
+        return text, {}
+    for actual, canon in sorted(renames.items(), key=lambda kv: -len(kv[0])):
+        text = re.sub(r'(?<![A-Za-z0-9_:])' + re.escape(actual) + r'(?![A-Za-z0-9_])', canon, text)
+    return text, renames
+
+
 class Facts:
     def __init__(self, path):
         self.path = path
+        self.consts_raw = {}
+        self._const_lit = {}
         self.crate = None
         self.adts = {}
         self.adts_by_name = {}
@@ -306,12 +375,17 @@ class Facts:
         self.surface = []
         self.types = []
         self.end = None
-        with open(path) as f:
-            for line in f:
+        text, self.renamed_anchors = _canonicalise(path)
+        if True:
+            for line in text.split("\n"):
+                if not line:
+                    continue
                 r = json.loads(line)
                 k = r["rec"]
                 if k == "body":
                     self.bodies[r["id"]] = r
+                elif k == "constbody":
+                    self.consts_raw[r["name"]] = r
                 elif k == "adt":
                     self.adts[r["id"]] = r
                     self.adts_by_name[r["name"]] = r
@@ -338,6 +412,39 @@ class Facts:
             raise RuntimeError("fact file body count mismatch")
         self._callers = None
         self._impl_by_id = {i["id"]: i for i in self.impls}
+
+    # ---- named constants
+    def const_literal(self, name):
+        """Value of a named constant whose initialiser is a literal: {'v': int} or
+        {'k': 'array', 'vals': [...]} (also for `&[..]` / `&'static [usize]` tables)."""
+        if name in self._const_lit:
+            return self._const_lit[name]
+        self._const_lit[name] = None
+        rec = self.consts_raw.get(name)
+        if rec is None:
+            return None
+        cb = Body(rec, self)
+        r = cb.root({"p": [0]})
+        lit = None
+        if r[0] == "const":
+            c = r[1]
+            if "v" in c:
+                lit = {"v": c["v"], "t": c.get("t")}
+            elif c.get("k") == "array":
+                lit = c
+        elif r[0] == "agg" and r[3]["r"].get("ak") == "array":
+            vals = []
+            for o in r[3]["r"]["ops"]:
+                rr = cb.root(o)
+                if rr[0] == "const" and "v" in rr[1]:
+                    vals.append(rr[1]["v"])
+                else:
+                    vals = None
+                    break
+            if vals is not None:
+                lit = {"k": "array", "vals": vals}
+        self._const_lit[name] = lit
+        return lit
 
     # ---- types
     def T(self, tid):
